@@ -40,6 +40,52 @@ Theorem C14_dollar_free_is_safe : forall s, dollar_free s = true -> sep_safe s =
 Proof. exact dollar_free_sep_safe. Qed.
 Print Assumptions C14_dollar_free_is_safe.
 
+(* (1c) the same for requests that carry an EnforceContext (a CacheableParam whose key text is
+   "EnforceContext{" RType "-" PType "-" EType "-" MType "}"), in any position and mixed with
+   strings.  ctx_req: every string is sep_safe and does not itself spell a context key text;
+   RType, PType and EType of every context contain no '-' (MType may), and the key text of the
+   context is sep_safe.  Inside this guard EVERY component of the request is part of the key:
+   two contexts that differ in exactly one of the four names never share a cached decision,
+   and a request with a context never shares one with the plain request of the same strings. *)
+Theorem C14_key_injective_ctx : forall r1 r2,
+  ctx_req r1 = true -> ctx_req r2 = true -> get_key r1 = get_key r2 -> r1 = r2.
+Proof. exact key_injective_ctx. Qed.
+Print Assumptions C14_key_injective_ctx.
+
+Theorem C14_ctx_key_separates : forall a b c d a' b' c' d' rest,
+  ctx_req (PCtx a b c d :: rest) = true -> ctx_req (PCtx a' b' c' d' :: rest) = true ->
+  (a, b, c, d) <> (a', b', c', d') ->
+  get_key (PCtx a b c d :: rest) <> get_key (PCtx a' b' c' d' :: rest).
+Proof. exact ctx_key_separates. Qed.
+Print Assumptions C14_ctx_key_separates.
+
+(* the guard is exact in each of its parts (all are variants of F21 for the context text):
+   a '-' in one of the first three names (one-sided: the other request is inside the guard),
+   a string that spells a context text, a "}" followed by the terminator inside a name *)
+Theorem C14_ctx_dash_collision_refuted :
+  exists r1 r2, r1 <> r2 /\ get_key r1 = get_key r2 /\
+    ctx_req r2 = true /\ (forall p, In p r1 -> match p with PCtx _ _ _ _ | PStr _ => True | _ => False end).
+Proof. exact ctx_dash_collision_refuted. Qed.
+Print Assumptions C14_ctx_dash_collision_refuted.
+
+Theorem C14_ctx_dash_each_name_refuted :
+  get_key [PCtx "a-b" "c" "d" "e"] = get_key [PCtx "a" "b-c" "d" "e"] /\
+  get_key [PCtx "a" "b-c" "d" "e"] = get_key [PCtx "a" "b" "c-d" "e"] /\
+  get_key [PCtx "a" "b" "c-d" "e"] = get_key [PCtx "a" "b" "c" "d-e"] /\
+  ctx_req [PCtx "a" "b" "c" "d-e"] = true.
+Proof. exact ctx_dash_each_name_refuted. Qed.
+Print Assumptions C14_ctx_dash_each_name_refuted.
+
+Theorem C14_ctx_string_collision_refuted :
+  exists r1 r2, r1 <> r2 /\ get_key r1 = get_key r2 /\ ctx_req r2 = true /\ plain_req r1 = true.
+Proof. exact ctx_string_collision_refuted. Qed.
+Print Assumptions C14_ctx_string_collision_refuted.
+
+Theorem C14_ctx_brace_collision_refuted :
+  exists r1 r2, r1 <> r2 /\ get_key r1 = get_key r2 /\ ctx_req r2 = true.
+Proof. exact ctx_brace_collision_refuted. Qed.
+Print Assumptions C14_ctx_brace_collision_refuted.
+
 (* F21 (known finding): without the guard two different tuples have one key *)
 Theorem C14_key_collision_refuted :
   exists r1 r2, r1 <> r2 /\ get_key (map PStr r1) = get_key (map PStr r2).
@@ -112,6 +158,90 @@ Theorem C14_transparent_acl_general : forall v rules (h : list acl_op) r now,
   out_of_u (acl_enforce (ust (run acl_enforce acl_step v (acl_init rules) h)) r).
 Proof. exact acl_transparent. Qed.
 Print Assumptions C14_transparent_acl_general.
+
+(* (3a) transparent holds from ANY state whose cache is empty, in particular after the last
+   InvalidateCache / LoadPolicy / ClearPolicy: only the operations since then matter *)
+Theorem C14_transparent_since_invalidation :
+  forall (U M : Type) (uenforce : U -> list param -> option bool)
+         (ustep : U -> ucall M -> U * uret) v (s0 : state U) (o : op M) (h : list (op M)) r now,
+  o = InvalidateCache \/ o = LoadPolicy \/ o = ClearPolicy ->
+  Forall (respects_for uenforce ustep v r) h -> no_collision h r ->
+  snd (step uenforce ustep v (run uenforce ustep v (fst (step uenforce ustep v s0 o)) h) (Enforce now r)) =
+  out_of_u (uenforce (ust (run uenforce ustep v (fst (step uenforce ustep v s0 o)) h)) r).
+Proof. exact transparent_since_invalidation. Qed.
+Print Assumptions C14_transparent_since_invalidation.
+
+(* (3b) transparent_quiet: with NO hypothesis on the underlying enforcer and for EVERY kind of
+   request (strings, EnforceContext, other CacheableParam, non-cacheable values): starting from
+   an empty cache (NewCachedEnforcer, or after a full invalidation), while only Enforce,
+   InvalidateCache, EnableCache and SetExpireTime are called, Enforce(r) = the underlying
+   decision, provided no other request asked in that stretch has the key of r *)
+Theorem C14_transparent_quiet :
+  forall (U M : Type) (uenforce : U -> list param -> option bool)
+         (ustep : U -> ucall M -> U * uret) v (s : state U) (h : list (op M)) r now,
+  cache_of s = [] -> forallb quiet h = true -> no_collision h r ->
+  snd (step uenforce ustep v (run uenforce ustep v s h) (Enforce now r)) =
+  out_of_u (uenforce (ust (run uenforce ustep v s h)) r).
+Proof. exact transparent_quiet. Qed.
+Print Assumptions C14_transparent_quiet.
+
+(* (3c) transparent_ctx: (3b) with the collision condition discharged by (1c): all requests made
+   of strings and EnforceContext values inside ctx_req.  A context is never served the decision
+   of a context that differs in RType, PType, EType or MType, nor that of the plain request. *)
+Theorem C14_transparent_ctx :
+  forall (U M : Type) (uenforce : U -> list param -> option bool)
+         (ustep : U -> ucall M -> U * uret) v (s : state U) (h : list (op M)) r now,
+  cache_of s = [] -> forallb quiet h = true -> reqs_ctx h = true -> ctx_req r = true ->
+  snd (step uenforce ustep v (run uenforce ustep v s h) (Enforce now r)) =
+  out_of_u (uenforce (ust (run uenforce ustep v s h)) r).
+Proof. exact transparent_ctx. Qed.
+Print Assumptions C14_transparent_ctx.
+
+(* (3d) the instance (3'') for the second fixture of the correspondence run (a model with the
+   sections r r2 / p p2 / e e2 / m .. m6 selected by a leading EnforceContext): plain requests,
+   listed mutators *)
+Theorem C14_transparent_cx : forall v rules1 rules2 (h : list cx_op) r now,
+  forallb (cx_op_ok v) h = true -> acl_req_ok r = true -> no_collision h r ->
+  snd (cx_run_step v (run cx_enforce cx_step v (cx_init rules1 rules2) h) (Enforce now r)) =
+  out_of_u (cx_enforce (ust (run cx_enforce cx_step v (cx_init rules1 rules2) h)) r).
+Proof. exact cx_transparent. Qed.
+Print Assumptions C14_transparent_cx.
+
+(* in that fixture each of the four names of the context changes the embedded enforcer's answer
+   for the same strings (so a key that left one of them out would serve a wrong decision) *)
+Theorem C14_cx_names_matter :
+  (cx_enforce x_st (x_req "r" "p" "e" "m" "alice" "data1" "write") = Some false /\
+   cx_enforce x_st (x_req "r" "p" "e" "m3" "alice" "data1" "write") = Some true) /\
+  (cx_enforce x_st (x_req "r" "p" "e" "m" "zed" "data1" "write") = Some false /\
+   cx_enforce x_st (x_req "r" "p" "e2" "m" "zed" "data1" "write") = Some true) /\
+  (cx_enforce x_st (x_req "r" "p" "e" "m" "alice" "data1" "read") = Some true /\
+   cx_enforce x_st (x_req "r" "p2" "e" "m" "alice" "data1" "read") = None /\
+   cx_enforce x_st (x_req "r" "p2" "e" "m5" "alice" "data1" "read") = Some false) /\
+  (cx_enforce x_st (x_req "r" "p" "e" "m" "alice" "data1" "read") = Some true /\
+   cx_enforce x_st (x_req "r2" "p" "e" "m" "alice" "data1" "read") = None /\
+   cx_enforce x_st (x_req "r2" "p" "e" "m6" "alice" "data1" "read") = Some true /\
+   cx_enforce x_st (x_req "r2" "p2" "e" "m4" "alice" "data1" "read") = Some false).
+Proof. exact cx_names_matter. Qed.
+Print Assumptions C14_cx_names_matter.
+
+(* outside ctx_req (variant of F21), behavioural form: a request whose first string spells the
+   key text of a context is served that context's decision instead of an error *)
+Theorem C14_ctx_string_stale_refuted : forall v,
+  let h := [Enforce 0%Z (x_req "r" "p" "e" "m" "alice" "data1" "read")] in
+  forallb quiet h = true /\
+  cx_answers v h [PStr "EnforceContext{r-p-e-m}"; PStr "alice"; PStr "data1"; PStr "read"]
+  = (ODec true false, ODec false true).
+Proof. exact ctx_string_stale_refuted. Qed.
+Print Assumptions C14_ctx_string_stale_refuted.
+
+(* a request with a context is outside (3d): RemovePolicy of the rule with the same strings is
+   not an invalidation event for its key (the statement speaks of "the identical rule") *)
+Theorem C14_cx_ctx_request_stale_refuted : forall v,
+  let r := x_req "r" "p" "e" "m" "alice" "data1" "read" in
+  let h := [Enforce 0%Z r; RemovePolicy [PStr "alice"; PStr "data1"; PStr "read"]] in
+  forallb (cx_op_ok v) h = true /\ cx_answers v h r = (ODec true false, ODec false false).
+Proof. exact cx_ctx_request_stale_refuted. Qed.
+Print Assumptions C14_cx_ctx_request_stale_refuted.
 
 (* (4) invalidation_complete: after InvalidateCache / LoadPolicy / ClearPolicy the cache is
    empty — both wrappers, from ANY state, in particular for every value of enableCache (F22,
@@ -246,3 +376,15 @@ Example C14_nonvacuous : forall v,
                                   (nth n w_history InvalidateCache))) [0; 1; 3; 7; 10; 12]
   = [ODec true false; ODec true false; ODec false false; ODec false false; ODec true false; ODec false false].
 Proof. exact w_history_ok. Qed.
+
+(* non-vacuity of (1c) / (3c): contexts that differ in exactly one name each (MType, EType, PType,
+   RType), the plain request with the same strings, a second round of hits; inside every guard,
+   on both wrappers *)
+Example C14_ctx_nonvacuous : forall v,
+  forallb quiet x_history = true /\ reqs_ctx x_history = true /\
+  map (fun n => snd (cx_run_step v (run cx_enforce cx_step v (cx_init x_pol1 x_pol2) (firstn n x_history))
+                                 (nth n x_history InvalidateCache))) (seq 0 12)
+  = [ODec false false; ODec true false; ODec true false; ODec false true; ODec false true;
+     ODec false false; ODec true false; ODec true false;
+     ODec false false; ODec true false; ODec true false; ODec false true].
+Proof. exact x_history_ok. Qed.
